@@ -247,30 +247,33 @@ func mavenRequirementsToProject(pk maven.ProjectKey, req *pb.Requirements_Maven)
 
 	var profiles []maven.Profile
 	for _, p := range req.Profiles {
+		// A profile without an <activation> element has no activation
+		// message; the generated getters are nil-safe.
+		act := p.GetActivation()
 		activation := maven.Activation{
-			ActiveByDefault: maven.FalsyBool(p.Activation.ActiveByDefault),
+			ActiveByDefault: maven.FalsyBool(act.GetActiveByDefault()),
 		}
-		if p.Activation.Jdk != nil {
-			activation.JDK = maven.String(p.Activation.Jdk.Jdk)
+		if act.GetJdk() != nil {
+			activation.JDK = maven.String(act.GetJdk().GetJdk())
 		}
-		if p.Activation.Os != nil {
+		if os := act.GetOs(); os != nil {
 			activation.OS = maven.ActivationOS{
-				Name:    maven.String(p.Activation.Os.Name),
-				Family:  maven.String(p.Activation.Os.Family),
-				Arch:    maven.String(p.Activation.Os.Arch),
-				Version: maven.String(p.Activation.Os.Version),
+				Name:    maven.String(os.GetName()),
+				Family:  maven.String(os.GetFamily()),
+				Arch:    maven.String(os.GetArch()),
+				Version: maven.String(os.GetVersion()),
 			}
 		}
-		if p.Activation.Property != nil {
+		if prop := act.GetProperty(); prop != nil {
 			activation.Property = maven.ActivationProperty{
-				Name:  maven.String(p.Activation.Property.Property.Name),
-				Value: maven.String(p.Activation.Property.Property.Value),
+				Name:  maven.String(prop.GetProperty().GetName()),
+				Value: maven.String(prop.GetProperty().GetValue()),
 			}
 		}
-		if p.Activation.File != nil {
+		if file := act.GetFile(); file != nil {
 			activation.File = maven.ActivationFile{
-				Missing: maven.String(p.Activation.File.Missing),
-				Exists:  maven.String(p.Activation.File.Exists),
+				Missing: maven.String(file.GetMissing()),
+				Exists:  maven.String(file.GetExists()),
 			}
 		}
 		profiles = append(profiles, maven.Profile{
